@@ -211,6 +211,9 @@ def partition_volume(volume: float, *, max_volume: Union[int, float]) -> List[fl
         return [volume]
     isteps = math.ceil(volume / max_volume)
     step_volume = math.ceil(volume / isteps)
+    if step_volume > max_volume:
+        # rounding the step up must not push it above a non-integer max_volume
+        step_volume = volume / isteps
     volumes: List[float] = [step_volume] * (isteps - 1)
     volumes.append(volume - numpy.sum(volumes))
     return volumes
